@@ -12,6 +12,10 @@ From CAres.Core Require Import AllocFault.
 From CAres.Dsa Require Import Array Array_alloc.
 From CAres.Alloc Require Import ListAlloc ListAlloc_proofs BufAlloc BufAlloc_proofs
      HtableAlloc HtableAlloc_proofs SendAlloc SendAlloc_proofs Oracle.
+From CAres.Alloc Require C19Containers DupAlloc DupAlloc_proofs SendWork SendWork_proofs.
+From CAres.Dsa Require LList SList Htable Htable_proofs Buf Buf_proofs.
+From CAres.Wire Require Record Write Parse.
+From Coq Require Import Permutation.
 From CAres.Gen Require Import Consts.
 
 (* ---- containers: a refused allocation leaves the container and the ledger unchanged ---- *)
@@ -152,3 +156,94 @@ Theorem C14_send_failure_accepted_by_oracle : forall f E ch qid h base_cb base_r
      judge_tok (mkTok qid 1 (r_cbs r) (Some (r_status r)) base_cb base_ret true false false) = []).
 Proof. exact send_failure_judged. Qed.
 Print Assumptions C14_send_failure_accepted_by_oracle.
+
+(* ---- the same container statements on the C19 models (coq/Dsa/*.v: refinement-proved and
+        tied to the code by the dsa engine), allocator answers drawn from the oracle at the
+        current request counter: every position of the failing allocation ---- *)
+
+Theorem C14_c19_llist_insert_refused : forall (f : oracle) n h l v,
+  f n = false ->
+  LList.ll_insert_first (f n) h l v = Ok (h, None) /\ LList.ll_insert_last (f n) h l v = Ok (h, None).
+Proof. exact C19Containers.c19_llist_insert_refused. Qed.
+Print Assumptions C14_c19_llist_insert_refused.
+
+Theorem C14_c19_slist_insert_refused : forall D (cmp : D -> D -> Z) heads (f : oracle) n (s : SList.slist D) d,
+  (exists j, j < 3 /\ f (n + j) = false) \/
+  (f (n + 3) = false /\
+   SList.sl_levels s < SList.sl_calc_level (SList.sl_max_level (SList.sl_cnt s) (SList.sl_levels s)) 1 heads) ->
+  SList.sl_insert cmp heads (f n) (f (n + 1)) (f (n + 2)) (f (n + 3)) s d = Ok (s, None).
+Proof. exact (@C19Containers.c19_slist_insert_refused). Qed.
+Print Assumptions C14_c19_slist_insert_refused.
+
+Theorem C14_c19_htable_expand_refused : forall K V (hash : K -> Z -> Z) (f : oracle) n k (h : @Htable.ht K V),
+  Htable.ht_expand_requests h <= k ->
+  (exists j, j < Htable.ht_expand_requests h /\ f (n + j) = false) ->
+  exists o', Htable.ht_expand hash (C19Containers.answers f n k) h = Ok (h, false, o').
+Proof. exact (@C19Containers.c19_htable_expand_refused). Qed.
+Print Assumptions C14_c19_htable_expand_refused.
+
+Theorem C14_c19_htable_insert_failed : forall K V (keq : K -> K -> bool) (hash : K -> Z -> Z),
+  (forall a b, keq a b = keq b a) ->
+  (forall a b c, keq a b = true -> keq b c = true -> keq a c = true) ->
+  (forall a b s, keq a b = true -> hash a s = hash b s) ->
+  forall (f : oracle) n k (h h' : @Htable.ht K V) e,
+  Htable_proofs.ht_inv keq hash h ->
+  Htable.ht_insert keq hash (C19Containers.answers f n k) h e = Ok (h', Htable.HtFailed) ->
+  Htable_proofs.ht_inv keq hash h' /\
+  Permutation (Htable_proofs.ht_entries h') (Htable_proofs.ht_entries h) /\
+  (exists j, j < k /\ f (n + j) = false) /\
+  (forall key, Htable.ht_get keq hash h' key = Htable.ht_get keq hash h key) /\
+  Htable.ht_num_keys h' = Htable.ht_num_keys h.
+Proof. exact (@C19Containers.c19_htable_insert_failed). Qed.
+Print Assumptions C14_c19_htable_insert_failed.
+
+Theorem C14_c19_buf_append_refused : forall junk (f : oracle) n b bytes st b',
+  Buf_proofs.buf_inv b -> (Buf.buf_zlen bytes < Buf.BUF_ALLOC_LIMIT)%Z ->
+  Buf.buf_append junk (f n) b bytes = Ok (st, b') -> st = ARES_ENOMEM ->
+  Buf_proofs.buf_inv b' /\ Buf.buf_remaining b' = Buf.buf_remaining b /\
+  Buf.bufs_tagged (Buf.buf_abs b') = Buf.bufs_tagged (Buf.buf_abs b).
+Proof. exact C19Containers.c19_buf_append_refused. Qed.
+Print Assumptions C14_c19_buf_append_refused.
+
+(* ---- the group G_dup opened: ares_dns_record_duplicate_ex = ares_dns_write, ares_dns_parse,
+        ares_free(data); values from the C03/C04 models, kw / kp requests by writer / parser
+        (each assumed all-or-nothing); the composition keeps nothing on any failure ---- *)
+Theorem C14_record_duplicate_atomic : forall (f : oracle) kw kp src h,
+  is_ub (Write.dns_write src) = false ->
+  (forall bytes, Write.dns_write src = Ok bytes -> is_ub (Parse.dns_parse bytes 0%Z) = false) ->
+  (forall s, Write.dns_write src = Err s -> s <> ARES_SUCCESS) ->
+  (forall bytes s, Write.dns_write src = Ok bytes -> Parse.dns_parse bytes 0%Z = Err s -> s <> ARES_SUCCESS) ->
+  exists st r hh, DupAlloc.record_duplicate f kw kp src h = Ok ((st, r), hh) /\
+    match r with
+    | None => st <> ARES_SUCCESS /\ h_live hh = h_live h
+    | Some (rec, blks) =>
+      st = ARES_SUCCESS /\ length blks = kp /\ h_live hh = blks ++ h_live h /\
+      exists bytes, Write.dns_write src = Ok bytes /\ Parse.dns_parse bytes 0%Z = Ok rec
+    end /\
+    (r = None ->
+     (st = ARES_ENOMEM /\ exists n, f n = false) \/
+     Write.dns_write src = Err st \/
+     (exists bytes, Write.dns_write src = Ok bytes /\ Parse.dns_parse bytes 0%Z = Err st)).
+Proof. exact DupAlloc_proofs.record_duplicate_spec. Qed.
+Print Assumptions C14_record_duplicate_atomic.
+
+(* ---- the submission path with EVERY live request in the state (Alloc/SendWork.v): the branch
+        "write refused -> handle_conn_error -> ares_close_connection -> every other request of
+        the connection requeued -> the request itself requeued" is inside the model; the mutual
+        recursion is a work stack with fuel that is shown to suffice.  For every oracle and
+        environment: the run completes (no double free), every request is called back at most
+        once, a request that was called back is gone, all others are still there, and the
+        ledger balances with the same base before and after ---- *)
+Theorem C14_send_all_requests_exactly_once : forall f E ch q h base,
+  NoDup (SendWork_proofs.qids (SendWork.w_queries ch)) ->
+  SendWork_proofs.OS base (SendWork_proofs.all_qblks (SendWork.w_queries ch) ++ SendWork_proofs.all_cblks (SendWork.w_conns ch)) h ->
+  (forall q', In q' (SendWork.w_queries ch) -> SendWork_proofs.q_ok (SendWork.w_conns ch) q') ->
+  In q (SendWork.w_queries ch) -> SendWork_proofs.detached q ->
+  exists ch' log h', SendWork.w_submit f E ch q h = Ok ((ch', log), h') /\
+    NoDup (map fst log) /\
+    (forall qid, In qid (map fst log) -> ~ In qid (SendWork_proofs.qids (SendWork.w_queries ch'))) /\
+    Permutation (SendWork_proofs.qids (SendWork.w_queries ch') ++ map fst log) (SendWork_proofs.qids (SendWork.w_queries ch)) /\
+    SendWork_proofs.OS base (SendWork_proofs.all_qblks (SendWork.w_queries ch') ++ SendWork_proofs.all_cblks (SendWork.w_conns ch')) h' /\
+    (forall q', In q' (SendWork.w_queries ch') -> SendWork_proofs.q_ok (SendWork.w_conns ch') q').
+Proof. exact SendWork_proofs.send_all_requests. Qed.
+Print Assumptions C14_send_all_requests_exactly_once.
